@@ -8,13 +8,13 @@ import (
 
 func regS(id, title string, quick int64) {
 	props[id] = &propSpec{World: func() sim.World { return seats.World{} }, WorldName: "S", QuickRuns: quick, Title: title, Shards: true,
-		Rule: "one case = one simulated history of a seat manager (table size, operation mix, junk arguments, stalled seats, bursts, quiet windows; in concurrent mode one real goroutine per operation released one at a time at the yield hooks by a seeded scheduler); non-trivial = at least one Next() after a membership change (interleaved mode) or at least one burst of operations in flight at once (concurrent mode); distinct = distinct (operation, outcome, playable seats before, seated players, target occupied, dealer present) transitions, resp. distinct (yield label, parked, unfinished) scheduler states, observed in non-trivial runs",
+		Rule:   "one case = one simulated history of a seat manager (table size, operation mix, junk arguments, stalled seats, bursts, quiet windows; in concurrent mode one real goroutine per operation released one at a time at the yield hooks by a seeded scheduler); non-trivial = at least one Next() after a membership change (interleaved mode) or at least one burst of operations in flight at once (concurrent mode); distinct = distinct (operation, outcome, playable seats before, seated players, target occupied, dealer present) transitions, resp. distinct (yield label, parked, unfinished) scheduler states, observed in non-trivial runs",
 		Assume: []string{"math/rand is seeded per run (go1.23: rand.Seed effective) and one run executes at a time per process", "GetPlayableSeats is only called once a dealer exists (it dereferences the dealer)", "player identities are unique per join attempt"}}
 }
 
 func regR(id, title string, quick int64) {
 	props[id] = &propSpec{World: func() sim.World { return regul.World{} }, WorldName: "R", QuickRuns: quick, Title: title,
-		Rule: "one case = one simulated tournament history (settings max/min, registration batches before and after the start, syncs with eliminations in drawn order, delayed and late release deliveries, stale and unknown table ids, late registrations, repeated status changes) followed by sweeps to a fixpoint; non-trivial = at least one table was opened AND at least one elimination was synced; distinct = distinct (operation, outcome, status, live tables, release in flight) transitions observed in non-trivial runs",
+		Rule:   "one case = one simulated tournament history (settings max/min, registration batches before and after the start, syncs with eliminations in drawn order, delayed and late release deliveries, stale and unknown table ids, late registrations, repeated status changes) followed by sweeps to a fixpoint; non-trivial = at least one table was opened AND at least one elimination was synced; distinct = distinct (operation, outcome, status, live tables, release in flight) transitions observed in non-trivial runs",
 		Assume: []string{"tables follow the regulator's instructions (release exactly the number asked, seat exactly the players handed out)", "a table never eliminates its last player", "the two callbacks never return an error"}}
 }
 
